@@ -5,9 +5,10 @@
   * `splitOn` (`strings.Split` behind `FlatFileSplit` and `AsDate`, non-empty separator): at least
     one byte per step;
   * `stripCont` (the in-place loop of `quotedQualifierParser`): every round deletes the prefix, so
-    the text gets shorter — for a NON-EMPTY prefix.  With the empty prefix the Go loop does not end
-    and the model's answer IS the fuel running out (`stripCont_empty_prefix_artefact`); the table
-    reader never passes it (the indent of a key line is at least one column);
+    the text gets shorter and the loop ends by its own condition — for a NON-EMPTY prefix.  With the
+    empty prefix the Go loop does not end and the model stops with the loop condition still true
+    (`stripCont_empty_prefix_steps`); the table reader never passes it (the indent of a key line
+    is at least one column);
   * the counter loops of the ORIGIN reader (`walkChars`, `walkGroups`, `validateLines`, the reader's
     own copy of `slowLines`): `for k < 10`, `for j < 60; j += 10`, `for i < length; i += 60`;
   * `digitsAux` and `natDigitsF` (the models of `fmt.Sprintf("%9d", ·)` inside `walkLine` and of
@@ -99,10 +100,32 @@ theorem stripCont_fuel (pre : Bytes) (hpre : pre ≠ []) : ∀ (f f' : Nat) (t :
       · simp only [List.length_append, List.length_take, List.length_drop]; omega
       · simp only [List.length_append, List.length_take, List.length_drop]; omega
 
+/-- … and the loop has ENDED BY ITS OWN CONDITION: in the value returned `"\n" ++ prefix` does not
+occur any more (`bytes.Index(token, p) < 0`) -/
+theorem stripCont_exits (pre : Bytes) (hpre : pre ≠ []) : ∀ (f : Nat) (t : Bytes), t.length ≤ f →
+    findSub (10 :: pre) (stripCont pre f t) 0 = none
+  | 0, t, h => by
+    have ht : t = [] := List.length_eq_zero_iff.mp (by omega)
+    subst ht
+    rw [stripCont]
+    unfold findSub; simp
+  | f + 1, t, hf => by
+    rw [stripCont]
+    cases hfs : findSub (10 :: pre) t 0 with
+    | none => exact hfs
+    | some i =>
+      dsimp only
+      have hb := findSub_bound (10 :: pre) t 0 i hfs
+      have hp : 0 < pre.length := List.length_pos_iff.mpr hpre
+      simp only [List.length_cons] at hb
+      apply stripCont_exits pre hpre f
+      simp only [List.length_append, List.length_take, List.length_drop]; omega
+
 /-- with the EMPTY prefix the loop of the Go code never ends (`"\n"` is found again and again, nothing
-is deleted) and the model's value is nothing but the fuel running out: this is the one fuelled
-loop of the reader model whose fuel is NOT adequate.  It cannot be reached from `INSDCTableParser("")`:
-the prefix is the indent `pre + len(key) + pst ≥ 1` of the first key line. -/
+is deleted): the model returns the text unchanged for EVERY fuel, with the loop condition still
+true — this is the one fuelled loop of the reader model whose fuel stands for a hang.  It cannot be
+reached from `INSDCTableParser("")`: the prefix is the indent `pre + len(key) + pst ≥ 1` of the first
+key line (`firstKeyline_key`, Gts/Lemmas/GbFuel2Agree.lean). -/
 theorem stripCont_empty_prefix_steps : ∀ (f : Nat) (t : Bytes), stripCont [] f (10 :: t) = 10 :: t
   | 0, _ => rfl
   | f + 1, t => by
